@@ -43,6 +43,16 @@ func corpus(c *hx.Ctx) {
 	pos := mw.Positions[2][2]
 	k3.AddFeature(mw.Feat{ID: 2, Lat: mw.Positions[4][1][0], Lng: mw.Positions[4][1][1]})
 	k3.AddFeature(mw.Feat{ID: 2, Lat: pos[0], Lng: pos[1]})
+	// an area over a two-point path whose end points coincide: "closed" by coordinates, too short
+	k4 := mw.NewCase(c)
+	k4.StandardRoot(hx.NewRand(2), false)
+	k4.World()
+	k4.Dump()
+	p7 := mw.Positions[7][0]
+	k4.AddFeature(mw.Feat{ID: 7, Lat: p7[0], Lng: p7[1]})
+	k4.AddFeature(mw.Feat{ID: 8, Lat: p7[0], Lng: p7[1]})
+	k4.AddFeature(mw.Feat{ID: 1011, Refs: []int{7, 8}})
+	k4.AddFeature(mw.Feat{ID: 2010, Refs: []int{1011}})
 	c.NonTrivial()
 }
 
